@@ -50,7 +50,7 @@ EnvReactions ==
        ELSE {Reaction("raise", NoMsg, e, NoP) : e \in {"PlanErr", "DevErr", "FailedPause", "RequestAbort", "RequestStop", "PlanHalt",
                                                          "Cancelled", "FailedStatus", "IMS", "InvalidCommand", "TransitionError",
                                                          "WaitTimeout", "StopIteration", "GeneratorExit", "Err:ValueError",
-                                                         "Err:RuntimeError", "Err:KeyError", "Err:TypeError", "Err:AssertionError"}}
+                                                         "Err:RuntimeError", "Err:KeyError", "Err:TypeError", "Err:AssertionError", "Err:AttributeError"}}
 
 ReqSuspendT(f, preId, postId) == ReqSuspendA(f, Pre(preId), Pre(postId), preId, postId)
 ReleaseT(f) == Release(f)
@@ -63,7 +63,7 @@ Step ==
            IF g.pos = 0 /\ FetchInput(S).t = "exc" THEN Fetch(Reaction("raise", NoMsg, FetchInput(S).v, NoP))
            ELSE \E r \in EnvReactions : Fetch(r)
         ELSE Fetch(ListReact(g, FetchInput(S)))
-  \/ \E d \in {"ok", "raise", "fail", "later"} : Exec(d)
+  \/ \E d \in {"ok", "raise", "fail", "later", "nostatus"} : Exec(d)
   \/ Start \/ Top \/ Wake \/ AfterSleep0 \/ (\E b \in BOOLEAN : DeliverCancel(b)) \/ CmdDone \/ Exit \/ TailStep \/ (\E cr \in CloseReacts : \E bad \in SUBSET Flyers : Finally(cr, bad) \/ AOpsStep(cr, bad) \/ Backstop(cr, bad)) \/ AOpsCancel \/ BackCancel
      \/ (\E d \in {"ok", "raise"} : CollectDone(d))
   \/ /\ Has(0) /\ At(0)[1] = "req"
